@@ -337,7 +337,7 @@ fn resolve(tc: Tc, stateless: bool, parallel: bool, via_thread: bool, raw: Vec<R
             let (kind, name, arguments) = arguments_for(ri.kind, &tag, &call_id);
             let item_id = if ri.has_id { Some(format!("fc_{tag}")) } else { None };
             // shape 0 = streamed (added, deltas?, args.done?, done), 1 = done only, 2 = added + done
-            let (mut added, mut deltas, mut args_done, mut done_full) = match ri.shape {
+            let (added, mut deltas, mut args_done, mut done_full) = match ri.shape {
                 0 => (true, Some(ri.cuts.clone()), ri.args_done, ri.done_full),
                 1 => (false, None, false, true),
                 _ => (true, None, false, true),
@@ -354,9 +354,6 @@ fn resolve(tc: Tc, stateless: bool, parallel: bool, via_thread: bool, raw: Vec<R
             }
             if deltas.is_none() && !args_done {
                 done_full = true;
-            }
-            if !added {
-                added = false;
             }
             let added_late = ri.added_late && deltas.is_some() && added;
             items.push(Item {
